@@ -56,12 +56,12 @@ def Obj.expected : Obj → Extension
   | .mpls ms => .mpls ms
   | .other c s p => .unknown c s p
 
-/-- Encodable objects.  A label stack has at least one entry, fits the 16-bit length, has all
-fields in range and S clear on every entry but the last (the last entry's S bit is free: RFC 4950
-senders set it, the theorem does not need it).  Any other object has a class ≠ 1 (class 1 *is* the
-label stack), 8-bit class and C-Type and a payload that fits the 16-bit length. -/
+/-- Encodable objects.  A label stack (of any number of entries, including none) fits the 16-bit
+length, has all fields in range and S clear on every entry but the last (the last entry's S bit is
+free: RFC 4950 senders set it, the theorem does not need it).  Any other object has a class ≠ 1
+(class 1 *is* the label stack), 8-bit class and C-Type and a payload that fits the 16-bit length. -/
 def Obj.wf : Obj → Prop
-  | .mpls ms => ms ≠ [] ∧ ms.length ≤ 16382 ∧ (∀ m ∈ ms, memberOk m) ∧ (∀ m ∈ ms.dropLast, m.bos = 0)
+  | .mpls ms => ms.length ≤ 16382 ∧ (∀ m ∈ ms, memberOk m) ∧ (∀ m ∈ ms.dropLast, m.bos = 0)
   | .other c s p => c < 256 ∧ c ≠ 1 ∧ s < 256 ∧ p.length ≤ 65531
 
 /-- the usual RFC 4950 sender: S set exactly on the last entry -/
